@@ -191,6 +191,10 @@ def check_roundtrip(case):
         cls.append("nt:len33..40")
     if v == 16:
         cls.append("nt:v16")
+    if case.get("lookalike"):
+        cls.append("nt:program-looks-like-other-input")
+        if n == 33 and prog[0] in (2, 3):
+            cls.append("nt:program-is-a-sec1-public-key")
     ones = sum(bin(b).count("1") for b in prog)
     if ones == 0:
         cls.append("nt:all-zero")
@@ -247,6 +251,29 @@ def _single_bit(n, bit):
     return bytes(v)
 
 
+def _lookalikes(n, tag):
+    """Programs of n bytes that look like another kind of input the library accepts: a SEC1 public key, an x-only key,
+    a Base58 payload, hex or address text, text with surrounding whitespace.  A program is opaque bytes: it must come
+    back exactly, whatever it resembles."""
+    from vf.ref import ec
+
+    out = []
+    if n == 33:
+        out += [ec.sec1_encode(ec.mul(k, ec.G), True) for k in (1, 2, 3, 0xC06)]
+    if n == 32:
+        out += [ec.G[0].to_bytes(32, "big"), ec.mul(2, ec.G)[0].to_bytes(32, "big")]
+    if n == 21:
+        out.append(b"\x00" + _prand(tag + "/h160", 20))
+    if n == 25:
+        out.append(b58ref.decode(b"1A1zP1eP5QGefi2DMPTfTL5SLmv7DivfNa"))
+    text = (b"00ff" * 10, b"DEADBEEF" * 5, b"bc1qw508d6qejxtdg4y5r3zarvary0c5xw7kv8f3t4", b"0x" + b"1f" * 19)
+    out += [t[:n] for t in text if len(t) >= n]
+    if n >= 3:
+        body = _prand(tag + "/ws", n - 2)
+        out += [b" " + body + b"\n", b"\n" + body + b"\x00", b"\x00" + body + b" "]
+    return [o for o in out if len(o) == n]
+
+
 def roundtrip_cases(tier):
     nrand = 3 if tier == "quick" else 24
     for net, _hrp in NETS:
@@ -263,6 +290,8 @@ def roundtrip_cases(tier):
                 progs.append(b"\x00" + _prand(f"{net}/{v}/{n}/z", n - 1))
                 for p in progs:
                     yield {"net": net, "v": v, "prog": hx(p)}
+                for p in _lookalikes(n, f"{net}/{v}/{n}"):
+                    yield {"net": net, "v": v, "prog": hx(p), "lookalike": 1}
 
 
 # ------------------------------------------------------------------ targets 2-4: accept set and totality
@@ -524,7 +553,7 @@ def _targets(tier):
             check_roundtrip,
             enumerate_=roundtrip_cases,
             required=[
-                "nt:len2..5", "nt:len33..40", "nt:all-zero", "nt:all-zero+padding", "nt:all-ones", "nt:single-bit", "nt:v16",
+                "nt:len2..5", "nt:len33..40", "nt:all-zero", "nt:all-zero+padding", "nt:all-ones", "nt:single-bit", "nt:v16", "nt:program-looks-like-other-input", "nt:program-is-a-sec1-public-key",
                 "v0", "v1+", "net:mainnet", "net:testnet", "net:regtest", "pad0", "pad1", "pad2", "pad3", "pad4",
             ],
         ),
